@@ -278,7 +278,7 @@ def dispatch(
     tokeniser: Tokeniser,
     reactor: 'Reactor',
     service: str,
-) -> tuple[Handler, list[str]]:
+) -> tuple[Handler, list[str] | None]:
     """Walk dispatch tree consuming tokens until a handler is found.
 
     Uses peek() to check for selector nodes before consuming, allowing
@@ -293,7 +293,8 @@ def dispatch(
     Returns:
         Tuple of (handler, peers)
         - handler: The function to call
-        - peers: List of matching peer names (empty for non-peer commands)
+        - peers: List of matching peer names (None when the command has no selector,
+          so that a selector which matched nobody can be told apart)
 
     Raises:
         UnknownCommand: If the command cannot be matched to a handler
@@ -302,7 +303,7 @@ def dispatch(
         tokeniser.consumed tracks how many tokens were consumed.
         This is used by remaining_string() to extract the remaining command portion.
     """
-    peers: list[str] = []
+    peers: list[str] | None = None
     node: DispatchNode = tree
 
     while True:
